@@ -673,6 +673,26 @@ def r7_rows_start_inside_the_file(repo=None):
     return r
 
 
+def _stores_through(tu, fname, argi, depth=0):
+    """does library function `fname` store through its pointer parameter number argi (directly, or by handing it on to a library
+    function that does)?"""
+    fn = tu.functions.get(fname)
+    if fn is None or depth > 2:
+        return False
+    ps = [p.name for p in fn.children if p.kind == "ParmVarDecl"]
+    if argi >= len(ps):
+        return False
+    pn = ps[argi]
+    for path, node, rhs, kind in clib.stores(fn):
+        if path and (path == "*" + pn or path.startswith("*" + pn) or path.startswith(pn + "[") or path.startswith(pn + "->")):
+            return True
+    for c in fn.calls():
+        for j, a in enumerate(c.args):
+            if a.strip(casts=True).path() == pn and c.callee in tu.functions and _stores_through(tu, c.callee, j, depth + 1):
+                return True
+    return False
+
+
 def r8_session_timestamp_exact(repo=None):
     """'carry the session's ... start timestamp': the second stored as init_utc_timestamp in every file must be the second of the
     first sample, floor(start * d / n).  Computed through the rounded long double rate it is one second early for whole-second
@@ -712,7 +732,8 @@ def r8_session_timestamp_exact(repo=None):
             for a in c.args:
                 t = a.strip(casts=True)
                 if t.kind == "UnaryOperator" and t.opcode == "&" and (t.children[0].path() or "").endswith("->" + FIELD) \
-                        and c.callee in tu.functions:      # an external call that takes the address reads it (H5Awrite: const void *)
+                        and c.callee in tu.functions and _stores_through(tu, c.callee, c.args.index(a)):
+                    # (a call that takes the address without storing through it reads the value: H5Awrite, attribute helpers)
                     n += 1
                     site = "%s:%s %s `%s`" % (LIB, c.line, fname, norm(c.nsrc)[:70])
                     if c.callee in exact:
